@@ -39,6 +39,8 @@ def main():
     ck = Check('C07', 'translation_validation')
     xk.c07_kernels(ck)
     data_word(ck)
+    import xfull
+    xfull.literal_kernel(ck)       # source text -> the constant the program loads, every digit symbolic
     # run-time operators and rewrites: every program of the generator that has a constant sub-tree, plus the threshold programs
     progs = [(n, s) for n, s in xgen.programs(ck.tier, ck.seed) if n.startswith('expr:') or n.startswith('return:') or n.startswith('formals:')]
     jobs = [(n, s, 2, 1, 2000) for n, s in progs + materialisation_programs()]
@@ -50,7 +52,7 @@ def main():
     for r in results[-2:]: ck.sample({'program': r['name'], 'status': r['status'], 'obligations': r['obligations']})
     ck.cov['disagreements_checked'] = ck.cov['obligations']
     ck.assume("decided compositionally: (1) folding kernel - ConstProp::visitPost(BinaryOpExpr/UnaryOpExpr) on nodes built by the real constructors equals the X reference operator for all 2^64 operand pairs "
-              "(wrap-around for + - unary-; boolean operands for and/or/~); val propagation yields exactly the declared constant; (2) materialisation - C04 gives LDAC/LDBC v for all v, a DATA word is emitted verbatim, "
+              "(wrap-around for + - unary-; boolean operands for and/or/~); val propagation yields exactly the declared constant; (2) materialisation - literals: `proc main() is 0(<literal>)` runs through the WHOLE compiler in the engine with every digit of a decimal literal of 1..10 digits (value < 2^32) or a hex literal of 1..8 digits a symbol (quick tier: 1-4 and 10 decimal, 1, 4 and 8 hex digits), and z3 proves that the constant the code loads (LDAC immediate or constant-pool DATA word) is the literal's value; C04 gives LDAC/LDBC v for all v, a DATA word is emitted verbatim, "
               "the immediate/pool threshold is covered by programs with the constants 0, +-1, +-65535, +-65536, +-65537, +-INT_MAX in areg and breg position; (3) every operator and operand placement of the generator "
               "with variable operands (symbolic) and with constant sub-trees is validated against the reference for all values of the variables",
               "agreement of the folded and the run-time variant follows from (1)+(2)+(3) wherever the variable variant is unconditionally correct; '<' and friends on operands whose difference overflows are outside (the property's C01 subset excludes comparison-difference overflow)",
